@@ -1,10 +1,17 @@
 import SlipVerif.Model.Lambda
+import SlipVerif.Model.LambdaImpl
 import SlipVerif.Driver.Util
 --! namespace: ll
 /- line protocol for C04 (no blanks inside a term):
-     ll bind <lambda-list> <args>      -> ok <name-hex>=<term>*  | err badLL | err <BindErr>
+     ll bind <lambda-list> <args>      -> ok <name-hex>=<term>*  | err badLL | err <BindErr> | err init
+                                          (bindE: bind, then the &aux initial forms evaluated left to right)
+     ll chain <lambda-list> <args> <step>*   step = - | <args>   (call-next-method without / with arguments)
+                                       -> ok <result>;<result>;…  one per method of the chain (steps+1), format as ll hist
      ll arity <lambda-list>            -> ok <min> <max|inf>     | err badLL
      ll doc <name-hex>,<name-hex>,…|-  -> ok <min> <max|inf> <nodupmax|inf> | err badLL
+     ll impl <lambda-list> <args>      -> ok <name-hex>=<term|unbound>* | err defLambda | err <ImplErr>
+                                          (the code-level machine Model/LambdaImpl.lean over Gen/LambdaCall.lean:
+                                           DefLambda on the raw list, then Lambda.Call; one entry per parameter)
      ll hist <op>*   op = d:<name-hex>:<lambda-list> | c:<name-hex>:<args>
                      -> ok <result>;<result>;…  one per call: undef | err badLL | err <BindErr> | ok/<name-hex>=<term>/…
    term: n | i:<dec> | y:<hex> (symbol) | k:<hex> (keyword) | s:<hex> (string) | (<term>,<term>,…) -/
@@ -95,9 +102,27 @@ def handleHist (args : List String) : String :=
     | none => "err badLL"
     | some ops => "ok " ++ ";".intercalate ((runHist [] ops).map showResult)
 
+def showImplErr : LambdaImpl.ImplErr → String
+  | .tooFew => "tooFew" | .tooMany => "tooMany" | .missingValue => "missingValue"
+  | .notKeyword => "notKeyword" | .fault => "fault" | .auxForm => "auxForm"
+
+def handleImpl (l a : String) : String :=
+  match parseObj l, parseObj a with
+  | some lo, some ao =>
+    match LambdaImpl.defLambda lo, ao.toList? with
+    | .error _, _ => "err defLambda"
+    | _, none => "bad-request args"
+    | .ok doc, some as =>
+      match LambdaImpl.call doc as with
+      | .ok vars => "ok" ++ String.join ((LambdaImpl.observe doc vars).map (fun (n, v) =>
+          " " ++ hexString n ++ "=" ++ (match v with | some o => showObj o | none => "unbound")))
+      | .error e => "err " ++ showImplErr e
+  | _, _ => "bad-request term"
+
 def handle (entry : String) (args : List String) : String :=
   match entry, args with
   | "hist", ops => handleHist ops
+  | "impl", [l, a] => handleImpl l a
   | "bind", [l, a] =>
     match parseObj l, parseObj a with
     | some lo, some ao =>
@@ -105,9 +130,24 @@ def handle (entry : String) (args : List String) : String :=
       | .error _, _ => "err badLL"
       | _, none => "bad-request args"
       | .ok ll, some as =>
-        match bind ll as with
+        match bindE ll as with
         | .ok bs => "ok" ++ String.join (bs.map (fun (n, v) => " " ++ hexString n ++ "=" ++ showObj v))
-        | .error e => "err " ++ showErr e
+        | .error (.bind e) => "err " ++ showErr e
+        | .error (.init _) => "err init"
+    | _, _ => "bad-request term"
+  | "chain", l :: a :: steps =>
+    match parseObj l, parseObj a with
+    | some lo, some ao =>
+      match parseLL lo, ao.toList?, steps.mapM (fun s => if s = "-" then some none else (parseObj s).bind (fun o => o.toList?.map some)) with
+      | .error _, _, _ => "err badLL"
+      | _, none, _ => "bad-request args"
+      | _, _, none => "bad-request step"
+      | .ok ll, some as, some sts =>
+        "ok " ++ ";".intercalate ((chainArgs sts as).map (fun v =>
+          match bindE ll v with
+          | .ok bs => "ok" ++ String.join (bs.map (fun (n, v) => "/" ++ hexString n ++ "=" ++ showObj v))
+          | .error (.bind e) => "err " ++ showErr e
+          | .error (.init _) => "err init"))
     | _, _ => "bad-request term"
   | "arity", [l] =>
     match parseObj l with
